@@ -678,11 +678,15 @@ void format_data(
   size_t current_iov_bytes = 0;
   size_t prev_iov_index = 0;
   size_t prev_iov_bytes = 0;
-  for (uint64_t line_start_address = start_address & (~0x0F);
-       line_start_address < end_address;
-       line_start_address += 0x10) {
+  // Lines are counted rather than compared against end_address, because
+  // end_address wraps to zero when the data ends exactly at 2^64, and the
+  // address after the last line wraps when the data ends within the last line
+  uint64_t first_line_start_address = start_address & (~0x0F);
+  uint64_t num_lines = ((start_address & 0x0F) + total_size + 0x0F) >> 4;
+  for (uint64_t line_index = 0; line_index < num_lines; line_index++) {
 
     // Figure out the boundaries of the current line
+    uint64_t line_start_address = first_line_start_address + (line_index << 4);
     uint64_t line_end_address = line_start_address + 0x10;
     uint8_t line_invalid_start_bytes = max<int64_t>(start_address - line_start_address, 0);
     uint8_t line_invalid_end_bytes = max<int64_t>(line_end_address - end_address, 0);
@@ -745,7 +749,7 @@ void format_data(
       }
     }
 
-    if (collapse_zero_lines && (line_start_address > start_address) && (line_end_address < end_address) &&
+    if (collapse_zero_lines && (line_index > 0) && (line_index < num_lines - 1) &&
         !memcmp(line_buf, "\0\0\0\0\0\0\0\0\0\0\0\0\0\0\0\0", 16) &&
         !memcmp(prev_line_data, "\0\0\0\0\0\0\0\0\0\0\0\0\0\0\0\0", 16)) {
       continue;
